@@ -141,6 +141,8 @@ type w5World struct {
 	parked     []chan struct{}
 	parkedDisk []w5Parked
 	takeImage  func(at string)
+	insertsSinceIdle int
+	mustDrain        bool
 
 	clients []*w5Client
 	nextStr int
@@ -640,6 +642,9 @@ func (w *w5World) phase(dbdir string, nOps int, gated, faulty bool) {
 		if issued >= nOps && len(idle) == len(w.clients) {
 			break
 		}
+		if len(w.parkedDisk) == 0 {
+			w.insertsSinceIdle, w.mustDrain = 0, false
+		}
 		var acts []string
 		// an operation may hold the connection lock while it waits for the binlog commit (the
 		// must-commit-now path): a second operation would then wait on a mutex, which is not a
@@ -650,7 +655,7 @@ func (w *w5World) phase(dbdir string, nOps int, gated, faulty bool) {
 		} else {
 			r.Probe("connection_lock_held_at_quiescence")
 		}
-		if len(idle) > 0 && issued < nOps && lockFree {
+		if len(idle) > 0 && issued < nOps && lockFree && !w.mustDrain {
 			acts = append(acts, "issue")
 		}
 		if len(w.parkedDisk) > 0 {
@@ -672,6 +677,9 @@ func (w *w5World) phase(dbdir string, nOps int, gated, faulty bool) {
 				// busy timeout, which is an artefact of the amalgamation, not of the engine.
 				op.kind = "read_do"
 			}
+			if op.kind == "insert" {
+				w.insertsSinceIdle++
+			}
 			if strings.HasPrefix(op.kind, "insert") {
 				w.nextStr++
 				op.s = fmt.Sprintf("s%04d-%s", w.nextStr, strings.Repeat("x", c.Intn(40, "strlen")))
@@ -690,10 +698,16 @@ func (w *w5World) phase(dbdir string, nOps int, gated, faulty bool) {
 			// Time may pass while binlog disk operations are still parked: the engine's periodic
 			// commit then has to wait for the binlog commit (holding the connection lock, which is
 			// why operations are only issued when that lock is free). Value 0 = benign: drain first.
-			if c.Intn(2, "clock_with_pending_disk") == 0 {
+			// Determinism guard: the fsbinlog writer selects on {data signal, 500 ms flush timer}; if both
+			// are ready when it returns to that select Go picks at random. So time passes with I/O
+			// pending only when at most one append happened since the writer was last idle (its signal
+			// was consumed when the writer woke), and no new operation is issued until the disk queue
+			// has drained.
+			if c.Intn(2, "clock_with_pending_disk") == 0 || w.insertsSinceIdle > 1 {
 				w.releaseAll()
 			} else if len(w.parkedDisk) > 0 {
 				r.Probe("time_passes_with_binlog_io_pending")
+				w.mustDrain = true
 			}
 			r.Sched("clock", "clock")
 			r.Event("clock", "advance")
